@@ -131,6 +131,19 @@ class Interp:
                 res = l is None
                 return res if isinstance(e.ops[0], ast.Is) else not res
             return Unknown("comparison")
+        if isinstance(e, ast.BoolOp):
+            # short-circuit evaluation over decided operands
+            last = None
+            for v_ in e.values:
+                last = self.ev(v_, env, fn)
+                if isinstance(last, Unknown) or not isinstance(last, (bool, type(None), Num, str, list, dict)):
+                    return Unknown("undecided operand %s" % ast.unparse(v_)[:40])
+                truth = bool(last) if not isinstance(last, Num) else (float(last) != 0.0 if not isinstance(last, bool) else last)
+                if isinstance(e.op, ast.And) and not truth:
+                    return last
+                if isinstance(e.op, ast.Or) and truth:
+                    return last
+            return last
         if isinstance(e, ast.Lambda):
             return LambdaRef(e, fn.path)
         if isinstance(e, ast.Attribute):
